@@ -39,6 +39,10 @@ fn main() {
         dpdump::run(&args[2]);
         return;
     }
+    if id == "probe-sql" {
+        probe::run_sql(&args[2], args.get(3).map_or(false, |a| a == "sd"));
+        return;
+    }
     if id == "C18-child" {
         // qv C18-child <tier> <shard> <nshards> <from> <out>
         let tier = if args[2] == "quick" { Tier::Quick } else { Tier::Thorough };
